@@ -82,7 +82,12 @@ def _data(draw, maxb):
 def strat_sharded(tier):
   @st.composite
   def s(draw):
-    return {'data': _data(draw, 12), 'shape': {'filter': draw(st.booleans()), 'second_agg': draw(st.booleans()),
+    data = _data(draw, 12)
+    if draw(st.integers(0, 19)) == 0:
+      # shards longer than the data source's read-ahead (2**6 records) and not a multiple of it
+      nb = draw(st.sampled_from([130, 150, 200]))
+      data = [{'a': [i % 10]} for i in range(nb)]
+    return {'data': data, 'shape': {'filter': draw(st.booleans()), 'second_agg': draw(st.booleans()),
                                                'num_threads': draw(st.sampled_from([0, 0, 0, 2])),
                                                'chain2': draw(st.sampled_from([False, False, True]))},
             'workers': draw(st.sampled_from([1, 2, 2, 3])), 'shards': draw(st.sampled_from([1, 2, 2, 3, 3, 4, 6])),
